@@ -72,5 +72,7 @@ try:
     prev = json.load(open(d + "/detection.json"))
 except Exception:
     pass
+if "_error" not in out:
+    prev.pop("_error", None)
 prev.update(out)
 json.dump(prev, open(d + "/detection.json", "w"), indent=1)
